@@ -73,6 +73,10 @@ func draft(kind string, n int) string {
 		return "return 1" + rep(" + 1", 100001+n) + ";"
 	case "accepted":
 		return fmt.Sprintf("zq = [1, 2.5, \"a\", \"zq\", %d];\nfunction zf(a) { return a + %d; }\nfunction zg() { return \"zg\"; }\nfunction zh(a, b) { local c; c = a; foreach v in zq { c = c + 1; } return c + b; }\nif ( zq ) { return zf(1) + zh(2, 3); }\nreturn 0;", 70000+n, n)
+	case "accepted-reads-members":
+		return fmt.Sprintf("return [Name, Logins + %d, \"lit\", 70000, len(Name)];", n)
+	case "compile-rejected-naming-members":
+		return "if ( Secret == \"x\" ) { return [Logins, Secret, \"other\", 80000, 2.5]; }\n" + rep("(", n) + "3 += 1" + rep(")", n) + ";\nreturn Secret;"
 	case "accepted-fault":
 		return fmt.Sprintf("function zf(d) { if ( d <= 0 ) { foreach v in [1, 2] { return 1 %% 0; } } return zf(d - 1); }\nfunction zg() { return \"stale\"; }\nreturn zf(%d);", n)
 	}
@@ -80,7 +84,13 @@ func draft(kind string, n int) string {
 }
 
 var prepStepKinds = []string{"parse-rejected", "lexer-rejected", "compile-rejected", "compile-rejected-in-blocks", "compile-rejected-in-function",
-	"compile-rejected-end-of-chain", "too-large", "too-deep", "chain-too-long", "accepted", "accepted-fault"}
+	"compile-rejected-end-of-chain", "too-large", "too-deep", "chain-too-long", "accepted", "accepted-fault", "accepted-reads-members", "accepted-reads-members",
+	"compile-rejected-naming-members"}
+
+// prepObject is the record every run of a history is made on.
+func prepObject() interface{} {
+	return map[string]interface{}{"Name": "alice", "Secret": "hunter2", "Logins": 3}
+}
 
 // finals: shapes of the last script, by size.
 var prepFinals = map[string]func(n int) string{
@@ -118,11 +128,12 @@ var prepFinals = map[string]func(n int) string{
 	// small scripts that ask for what an earlier script defined (n is ignored)
 	"calls-leftover-function": func(n int) string { return "return zg();" },
 	"redefines-function":      func(n int) string { return "function zf(a) { return \"new\"; }\nreturn [zf(1), zf(2)];" },
+	"reads-members":           func(n int) string { return "return [Name, Logins, Secret, \"lit\", \"other\", 70000, 80000];" },
 	"same-constants":          func(n int) string { return "return [1, 2.5, \"a\", \"zq\", 70000, 70001, \"zg\", \"stale\"];" },
 }
 
 var prepFinalNames = []string{"parentheses", "unary-minus", "if-nesting", "array-nesting", "sum-chain", "and-chain", "statements", "function-body",
-	"else-if-chain", "constants", "calls-leftover-function", "redefines-function", "same-constants"}
+	"else-if-chain", "constants", "calls-leftover-function", "redefines-function", "same-constants", "reads-members"}
 
 // upper bounds for the bisection (a fresh evaluator refuses these sizes)
 var prepFinalMax = map[string]int{"parentheses": 10400, "unary-minus": 10400, "if-nesting": 10400, "array-nesting": 10400, "sum-chain": 40000,
@@ -198,7 +209,7 @@ func prepAnswerOf(r *eng.Runner, noOpt bool) (a prepAnswer, pan interface{}) {
 	}
 	a.accepted = true
 	a.program = programDigest(r)
-	res := r.Execute(map[string]interface{}{})
+	res := r.Execute(prepObject())
 	switch {
 	case res.Panic != nil:
 		return a, res.Panic
@@ -212,6 +223,13 @@ func prepAnswerOf(r *eng.Runner, noOpt bool) (a prepAnswer, pan interface{}) {
 		a.result = res.Val.Describe() + " trace=" + strings.Join(res.Trace, ";")
 	}
 	return a, nil
+}
+
+// dumpPanics calls Dump (output silenced) and reports a panic.
+func dumpPanics(r *eng.Runner) (pan interface{}) {
+	defer func() { pan = recover() }()
+	_ = r.E.Dump()
+	return nil
 }
 
 func runPrepHist(c *PrepHistCase) (classes []string, err error) {
@@ -232,18 +250,47 @@ func runPrepHist(c *PrepHistCase) (classes []string, err error) {
 	}
 	r, cancel := prepRunner(first)
 	defer cancel()
+	lastAccepted := ""
+	stateful := false
+	_ = stateful
 	for i, st := range c.Steps {
 		r.E.Script = draft(st.Kind, st.N)
 		perr, pan := r.Prepare(c.NoOpt)
 		if pan != nil {
 			return classes, fmt.Errorf("step %d (%s %d): Prepare panicked: %v", i, st.Kind, st.N, pan)
 		}
+		if dp := dumpPanics(r); dp != nil {
+			return classes, fmt.Errorf("step %d (%s %d): Dump after Prepare (error: %v) panicked: %v", i, st.Kind, st.N, perr, dp)
+		}
 		if perr != nil {
 			classes = append(classes, "history-step-refused:"+st.Kind)
+			// a host that does not look at the error runs what it has: that
+			// fails, or it runs the script accepted last - as that script runs
+			// anywhere else
+			if st.Run && lastAccepted != "" {
+				res := r.Execute(prepObject())
+				if res.Panic != nil {
+					return classes, fmt.Errorf("step %d (%s %d): the run after the refused Prepare panicked: %v", i, st.Kind, st.N, res.Panic)
+				}
+				if res.Err == nil && !res.TooBig {
+					fr, cancelL := prepRunner(lastAccepted)
+					want, _ := prepAnswerOf(fr, c.NoOpt)
+					cancelL()
+					got := res.Val.Describe() + " trace=" + strings.Join(res.Trace, ";")
+					if want.accepted && want.result != "timeout" && want.result != "error" && got != want.result {
+						return classes, fmt.Errorf("step %d (%s %d): Prepare refused the script; the run that followed neither failed nor gave what the script accepted before gives (%s): it gave %s", i, st.Kind, st.N, clip(want.result, 300), clip(got, 300))
+					}
+					classes = append(classes, "run-after-refused-prepare:value")
+				} else {
+					classes = append(classes, "run-after-refused-prepare:error")
+				}
+			}
 		} else {
 			classes = append(classes, "history-step-accepted:"+st.Kind)
+			lastAccepted = r.E.Script
+			stateful = stateful || st.Run
 			if st.Run {
-				if res := r.Execute(map[string]interface{}{}); res.Panic != nil {
+				if res := r.Execute(prepObject()); res.Panic != nil {
 					return classes, fmt.Errorf("step %d (%s %d): the run panicked: %v", i, st.Kind, st.N, res.Panic)
 				}
 			}
@@ -253,6 +300,9 @@ func runPrepHist(c *PrepHistCase) (classes []string, err error) {
 	got, pan := prepAnswerOf(r, c.NoOpt)
 	if pan != nil {
 		return classes, fmt.Errorf("the evaluator with a history panicked on the last script: %v", pan)
+	}
+	if dp := dumpPanics(r); dp != nil {
+		return classes, fmt.Errorf("Dump after the last Prepare panicked: %v", dp)
 	}
 	if want.result == "timeout" || got.result == "timeout" {
 		return append(classes, "inconclusive:timeout"), nil
@@ -276,7 +326,7 @@ func runPrepHist(c *PrepHistCase) (classes []string, err error) {
 }
 
 func init() {
-	for _, p := range []string{"C19", "C13"} {
+	for _, p := range []string{"C19", "C13", "C08", "C04"} {
 		replayers[p+"/prephist"] = func(raw []byte) error {
 			var c PrepHistCase
 			if err := json.Unmarshal(raw, &c); err != nil {
@@ -290,7 +340,7 @@ func init() {
 
 func runPrepareHistories(t *testing.T, prop string) {
 	defer silenceAs("prephist")()
-	col := evid.New(prop, "prephist", "Prepare histories on one evaluator (Script replaced, Prepare called again): 0-6 drafts refused by the lexer, the parser, the compiler (at the surface, inside up to 9000 parentheses or blocks, in a function body, at the far end of an operator chain of up to 99000 links), by the size, nesting and chain limits, or accepted (defining functions and constants; run to the end or into a fault); then a last script on either side of the largest size a fresh evaluator accepts (bisection; parentheses, prefix chains, if/array nesting, operator chains, statement count of program and function body, else-if chain, constants) or asking for what an earlier script defined; oracle: a fresh evaluator given the last script alone (accepted or refused, program through the hook, result and host calls of a run); non-trivial = at least one history step; distinct by steps and last script")
+	col := evid.New(prop, "prephist", "Prepare histories on one evaluator (Script replaced, Prepare called again): 0-6 drafts refused by the lexer, the parser, the compiler (at the surface, inside up to 9000 parentheses or blocks, in a function body, at the far end of an operator chain of up to 99000 links), by the size, nesting and chain limits, or accepted (defining functions and constants; run to the end or into a fault); then a last script on either side of the largest size a fresh evaluator accepts (bisection; parentheses, prefix chains, if/array nesting, operator chains, statement count of program and function body, else-if chain, constants) or asking for what an earlier script defined; oracle: a fresh evaluator given the last script alone (accepted or refused, program through the hook, result and host calls of a run on a record with three members); Dump after every Prepare must not panic; a run made although Prepare refused the script fails or gives what the script accepted last gives on a fresh evaluator (never the members or constants of the refused one); non-trivial = at least one history step; distinct by steps and last script")
 	si, sn := shardIndex()
 	// the bisections cost seconds: each process looks after some of the shapes
 	var mine []string
@@ -307,8 +357,9 @@ func runPrepareHistories(t *testing.T, prop string) {
 			switch st.Kind {
 			case "compile-rejected-end-of-chain":
 				st.N = rapid.SampledFrom([]int{0, 1, 300, 20000, 50000, 99000}).Draw(rt, "n")
-			case "compile-rejected", "compile-rejected-in-blocks", "compile-rejected-in-function", "parse-rejected", "lexer-rejected":
+			case "compile-rejected", "compile-rejected-in-blocks", "compile-rejected-in-function", "parse-rejected", "lexer-rejected", "compile-rejected-naming-members":
 				st.N = rapid.SampledFrom([]int{0, 1, 2, 40, 3000, 9000}).Draw(rt, "n")
+				st.Run = rapid.Bool().Draw(rt, "run")
 			case "accepted-fault":
 				st.N = rapid.SampledFrom([]int{0, 1, 50, 9000, 20000}).Draw(rt, "n")
 				st.Run = true
@@ -342,3 +393,5 @@ func runPrepareHistories(t *testing.T, prop string) {
 
 func TestC19PrepareHistories(t *testing.T) { runPrepareHistories(t, "C19") }
 func TestC13PrepareHistories(t *testing.T) { runPrepareHistories(t, "C13") }
+func TestC08PrepareHistories(t *testing.T) { runPrepareHistories(t, "C08") }
+func TestC04PrepareHistories(t *testing.T) { runPrepareHistories(t, "C04") }
